@@ -176,6 +176,24 @@ def step (s : DSys) (w : List String) : DSys × String :=
           let s' : DSys := { s with m := { ids := s.m.ids.set k (some id'), heap := h' }, spec := if ok then spSet else s.spec }
           (s', line (if ok then "ok" else "refused") s' alts)
     | _, _, _ => (s, "bad-op")
+  | "i" :: "tfiniset" :: kw :: dw :: rest =>
+    -- traits fini, then `mpt_identifier_set` on the same storage without a new init
+    match getSlot s kw, parseBytes dw, (match rest with | [] => some none | [l] => (parseLen l).map some | _ => none) with
+    | some (k, id), some name, some olen =>
+      let len : Int := olen.getD ((name.getD []).length : Int)
+      let bad := match name with
+        | none => olen.isNone || len < 0 || len > 60000
+        | some b => len > (b.length : Int) || len > 60000 || b.length > 60000
+      if bad then (s, "bad-op")
+      else
+        let spSet : Vals := Vals.step s.spec (Op.abs (.set k name len))
+        let alts : Alts := [(setVerdict name len, spSet)]
+        match (do let (id1, h1) ← fini id s.m.heap k; set id1 h1 k (name.map (· ++ [0])) len) with
+        | .error f => (s, line s!"FAULT:{faultName f}" s alts)
+        | .ok (id', h', ok) =>
+          let s' : DSys := { s with m := { ids := s.m.ids.set k (some id'), heap := h' }, spec := spSet }
+          (s', line (if ok then "ok" else "refused") s' alts)
+    | _, _, _ => (s, "bad-op")
   | ["i", "alloc", ln] =>
     match parseDec ln with
     | some n =>
